@@ -6,6 +6,7 @@
 package verifrt
 
 import (
+	"io"
 	"archive/zip"
 	"bytes"
 	"encoding/csv"
@@ -198,6 +199,24 @@ type File struct {
 	BOM    bool
 }
 
+func writeCSVRecord(w io.Writer, rec []string) {
+	var sb strings.Builder
+	for i, f := range rec {
+		if i > 0 {
+			sb.WriteByte(',')
+		}
+		if strings.ContainsAny(f, ",\"\r\n") || (len(rec) == 1 && f == "") {
+			sb.WriteByte('"')
+			sb.WriteString(strings.ReplaceAll(f, "\"", "\"\""))
+			sb.WriteByte('"')
+		} else {
+			sb.WriteString(f)
+		}
+	}
+	sb.WriteByte('\n')
+	io.WriteString(w, sb.String())
+}
+
 // Archive builds a real zip archive whose members are real CSV files.
 func Archive(files []File) []byte {
 	var buf bytes.Buffer
@@ -210,18 +229,14 @@ func Archive(files []File) []byte {
 		if f.BOM {
 			w.Write([]byte{0xEF, 0xBB, 0xBF})
 		}
-		cw := csv.NewWriter(w)
+		// minimal quoting (RFC 4180): a field is quoted only when it contains a comma, a quote, CR or LF,
+		// so leading/trailing spaces reach the reader unquoted
 		if f.Header != nil {
-			if err := cw.Write(f.Header); err != nil {
-				panic(err)
-			}
+			writeCSVRecord(w, f.Header)
 		}
 		for _, r := range f.Rows {
-			if err := cw.Write(r); err != nil {
-				panic(err)
-			}
+			writeCSVRecord(w, r)
 		}
-		cw.Flush()
 	}
 	if err := zw.Close(); err != nil {
 		panic(err)
